@@ -170,6 +170,25 @@ def run(report: Report, tier, seed):
                  status="discharged" if not route_bad else "refuted", backend=f"enumeration({len(U)} type terms x up to 5 routes, exhaustive over the universe)",
                  detail="the spec obtained from the ARC-4 type string, a method signature, the algosdk type object, the annotation and new_instance() is the same type (type string, dynamic-ness, layout, interchangeable under assignability)",
                  model=route_bad[:5] or None))
+    # O19.4: the `set` of every ABI class is an assignment too - whatever value type it accepts must have the target's layout
+    set_bad, nset, nacc = [], 0, 0
+    abiU = [t for t in U if layout(t)[0] == "abi"]
+    for a, b in itertools.product(abiU, abiU):
+        if isinstance(b, abi.TupleTypeSpec):
+            continue          # Tuple.set(*values) takes the ELEMENTS; it has no whole-value form for another ABI value
+        nset += 1
+        try:
+            e = b.new_instance().set(a.new_instance())
+        except Exception:
+            continue          # rejected when the assignment is built
+        if not isinstance(e, pt.Expr):
+            continue
+        nacc += 1
+        if not accepts(a, b):
+            set_bad.append((str(a), str(b), f"{type(b.new_instance()).__name__}.set accepts a value of type {a}: layouts {layout(a)[1]} vs {layout(b)[1]}"))
+    report.ob(Ob(id="O19.4/set-accepts-implies-same-layout", function="pyteal.abi.<every value class>.set(other ABI value)", kind="E",
+                 status="discharged" if not set_bad and nacc > 0 else ("refuted" if set_bad else "unknown"), backend=f"enumeration({len(abiU)}^2 ordered pairs, exhaustive over the universe)",
+                 detail=f"for all ordered pairs (a, b), b not a tuple (Tuple.set takes elements): b.new_instance().set(a.new_instance()) is rejected unless layout(a) == layout(b); {nacc} of {nset} accepted", model=set_bad[:5] or None))
     # call sites reject non-assignable arguments (O19.2)
     mism = [(a, b) for a, b in itertools.product(U[:40], U[:40]) if layout(a)[0] == "abi" and layout(b)[0] == "abi" and not accepts(a, b)]
     r.shuffle(mism)
@@ -216,10 +235,29 @@ def run(report: Report, tier, seed):
                                    replay={"a": a, "b": b, "why": why}, confirmed_native=True))
     for s_t, rn, why in route_bad[:3]:
         report.violation(Violation(key=f"route:{s_t}:{rn}", what=f"type spec of {s_t} via {rn}: {why}", obligation="O19.3/type-spec-routes-agree", replay={"type": s_t, "route": rn, "why": why}, confirmed_native=True))
+    for a, b, why in set_bad[:3]:
+        report.violation(Violation(key=f"set:{a}->{b}", what=f"{b}.set({a} value): {why}", obligation="O19.4/set-accepts-implies-same-layout", replay={"set": [a, b], "why": why}, confirmed_native=True))
     for a, b, why in site_bad[:2]:
         report.violation(Violation(key=f"callsite:{a}->{b}", what=f"{a} passed where {b} expected: {why}", replay={"a": a, "b": b}, confirmed_native=True))
 
 
 def replay(data):
     print(data.get("what"))
+    r = data.get("replay") or {}
+    nat = r.get("native") or r
+    if nat.get("set"):
+        # re-run the assignment on the current tree
+        from vf.core import use_repo
+        use_repo()
+        import pyteal as pt
+        from pyteal.ast.abi.util import type_spec_from_algosdk
+        from algosdk import abi as sabi
+        a, b = (type_spec_from_algosdk(sabi.ABIType.from_string(x)) for x in nat["set"])
+        try:
+            b.new_instance().set(a.new_instance())
+        except Exception as e:
+            print("rejected now:", type(e).__name__)
+            return 0
+        print(f"{nat['set'][1]}.set({nat['set'][0]}) is accepted; layouts {layout(a)} vs {layout(b)}")
+        return 0 if accepts(a, b) else 1
     return 1
